@@ -452,6 +452,7 @@ func runC10(env *Env) {
 		}
 	}
 	boundaryPromptDelivery(env, rep, "C10-flows", 12)
+	boundaryStaleEvents(env, rep, "C10-flows", 8)
 	env.WriteCases(rep, "", "Corr.C10corr", "list (nat * nat) * list nat * nat * list nat * nat", items, "c10_mismatches")
 	env.WriteReport(rep)
 }
@@ -498,6 +499,96 @@ func boundaryPromptDelivery(env *Env, rep *Report, key string, rounds int) {
 		time.Sleep(5 * time.Millisecond)
 		if n := countEv(in.Log(), "task", "X0"); !ok || n != 1 {
 			rep.Violate(key, cs, fmt.Sprintf("the exception flow of B0 was requested %d times, expected once; log: %s", n, logString(in.Log())))
+		}
+		in.Close()
+	}
+}
+
+// boundaryStaleEvents: a task with a non-interrupting boundary event sits in a loop (H -> G -> back to H). In the first
+// activation a burst of matching events is delivered and H is answered at once (some events find the listener gone);
+// the driver then waits, at G, until nothing moves any more, and lets the token go round: in the second activation no
+// event is delivered, so the boundary event must not continue — events of an earlier activation are dropped without
+// effect on later listeners.
+func boundaryStaleEvents(env *Env, rep *Report, key string, rounds int) {
+	p := &Prog{}
+	p.Node("start", "start")
+	p.Node("xor", "M")
+	p.Node("task", "H")
+	g := p.Node("task", "G")
+	g.Results = []string{"again"}
+	x := p.Node("xor", "X")
+	p.Node("end", "end")
+	p.Flow("start", "M", "")
+	p.Flow("M", "H", "")
+	p.Flow("H", "G", "")
+	p.Flow("G", "X", "")
+	p.Flow("X", "M", "again")
+	x.Default = p.Flow("X", "end", "").ID
+	b := p.Node("boundary", "B0")
+	b.Attrs = `attachedToRef="H" cancelActivity="false"`
+	b.Inner = `<bpmn:signalEventDefinition id="bd0" signalRef="s0"/>`
+	p.Node("task", "X0")
+	p.Node("end", "xe0")
+	p.Flow("B0", "X0", "")
+	p.Flow("X0", "xe0", "")
+	xmlText := p.XML(`<bpmn:signal id="s0" name="s0"/>`)
+	for r := 0; r < rounds && !rep.Saturated(); r++ {
+		cs := fmt.Sprintf("task with a non-interrupting boundary event in a loop: 8 events and the answer at once in the first activation, none in the second (round %d)", r)
+		env.Current(cs)
+		defs, err := ParseDefs(xmlText)
+		must(err)
+		in, err := StartInst(defs, InstOpt{Vars: map[string]any{"again": false}})
+		must(err)
+		rep.Evaluations++
+		rep.Nontrivial++
+		rep.Count("stale_events")
+		fail := func(msg string) { rep.Violate(key, cs, msg+"; log: "+logString(in.Log())) }
+		t1 := in.WaitTask("H", tmoStep)
+		if t1 == nil || !in.WaitUntil(tmoStep, func(l []Ev) bool { return countEv(l, "listening", "B0") >= 1 }) {
+			fail("first activation: H not requested with its boundary event listening")
+			in.Close()
+			continue
+		}
+		for i := 0; i < 8; i++ {
+			in.Signal("s0")
+		}
+		t1.Do()
+		tg := in.WaitTask("G", tmoStep)
+		if tg == nil {
+			fail("G not requested after H")
+			in.Close()
+			continue
+		}
+		// wait until the first activation has come to rest: no new trace for a while
+		for quiet, last := 0, -1; quiet < 6; {
+			time.Sleep(10 * time.Millisecond)
+			if n := len(in.Log()); n == last {
+				quiet++
+			} else {
+				quiet, last = 0, n
+			}
+		}
+		first := countEv(in.Log(), "task", "X0")
+		tg.Do(bpmn.DoWithResults(map[string]any{"again": true}))
+		t2 := in.WaitTask("H", tmoStep)
+		if t2 == nil {
+			fail("second activation: H not requested")
+			in.Close()
+			continue
+		}
+		time.Sleep(2 * settle)
+		if now := countEv(in.Log(), "task", "X0"); now != first {
+			fail(fmt.Sprintf("the boundary event continued %d times in the second activation although no event was delivered in it (%d continuations in the first)", now-first, first))
+		}
+		t2.Do()
+		in.Answer("G", tmoStep, bpmn.DoWithResults(map[string]any{"again": false}))
+		for i := 0; i < 16; i++ {
+			if !in.Answer("X0", 30*time.Millisecond) {
+				break
+			}
+		}
+		if !in.WaitCease(tmoStep) {
+			fail("all tasks answered, the instance did not complete")
 		}
 		in.Close()
 	}
